@@ -55,7 +55,13 @@ class Interpreter:
                 environment_.withParent(self.environment)
             env = environment
         try:
-            result = parse_script(script, filename).evaluate(env)
+            node = parse_script(script, filename)
+            try:
+                result = node.evaluate(env)
+            except CklRuntimeError as e:
+                if e.pos is None:
+                    e.pos = getattr(node, "pos", None)
+                raise
             if result.isReturn():
                 return result.value
             elif result.isBreak():
